@@ -229,7 +229,8 @@ class BaseMixin:
             return self.equal(a, b)
         if isinstance(a, SV) or isinstance(b, SV):
             s, c = (a, b) if isinstance(a, SV) else (b, a)
-            if c is None:
+            if c is None or type(c).__name__ == '_Nothing':
+                # attrs' NOTHING sentinel ("argument not given") is modelled as the None of an optional parameter
                 if isinstance(s.ty, TOpt):
                     return self.ct.opt_is_none(s.ty.elem, s.term)
                 return False
